@@ -5,6 +5,7 @@ import GoMailModel.Proofs.B64RT
 import GoMailModel.Proofs.Tree
 import GoMailModel.Proofs.ReaderInv
 import GoMailModel.Generated.Nesting
+import GoMailModel.Generated.Narrow
 /-
   C01 — Rendered MIME carries exactly the content the caller supplied.
   Theorems: the nesting decisions as regenerated from msg.go; the transfer encodings and their
@@ -165,5 +166,14 @@ theorem raw_body_is_content (content : Bytes) : Body.encodeBody .raw content = c
 example : QP.decode (QP.encodeBytes (sb "a=b \n\tü ")) = sb "a=b \r\n\tü " := by decide
 
 example : (Generated.hasMixed 0 1 1 0 1 true = true) ∧ (Generated.hasAlt 0 1 1 0 1 true = false) := by decide
+
+
+/-- Fact regenerated from the sources: the only integers narrower than `int` in the library are the nesting
+    depth of the multipart writer (at most four layers) and the step counter of LOGIN (at most two steps). No
+    count of parts, recipients, refusals, header fields, parameters or bytes is kept in a type that wraps at 128,
+    256 or 65536 - the theorems of this file quantify over all sizes, and this is the part of the tie that says the
+    code does not silently stop doing so. -/
+theorem no_narrow_counters :
+    Generated.narrowInts = ["msgwriter.go: int8", "smtp/auth_login.go: uint8"] := by decide
 
 end GoMail.Props.C01
